@@ -120,6 +120,10 @@ def build(node):
     if k == 'invoke':
         inv = Invoke(node[1])
         for part in node[2]:
+            if part[0] in 'CS' and part[2]:
+                # derive (and throw away) a sibling that sets the same keywords again: deriving must not change `inv`
+                inv.constants(**{kw: 'SIBLING' for kw, _ in part[2]})
+                inv.specs(**{kw: Val('SIBLING') for kw, _ in part[2]})
             if part[0] == 'C':
                 inv = inv.constants(*part[1], **dict(part[2]))
             elif part[0] == 'S':
@@ -127,6 +131,9 @@ def build(node):
             else:
                 inv = inv.star(args=None if part[1] is None else build(part[1]),
                                kwargs=None if part[2] is None else build(part[2]))
+        for part in node[2]:
+            if part[0] in 'CS' and part[2]:
+                inv.specs(**{kw: Val('LATE-SIBLING') for kw, _ in part[2]})     # (derived after the fact, discarded)
         return inv
     if k == 'ref':
         return Ref(node[1]) if node[2] is None else Ref(node[1], build(node[2]))
